@@ -105,6 +105,11 @@ class NpFacade:
             return SymVec(x)
         return np.array(x, dtype=dtype, **k)
 
+    def empty(self, shape, dtype=None, **k):
+        if getattr(self, "object_tables", False) and str(dtype) == "int64":
+            return np.empty(shape, dtype=object)  # S4: the offset table holds symbolic offsets
+        return np.empty(shape, dtype=dtype, **k)
+
 
 @contextlib.contextmanager
 def patched():
@@ -131,7 +136,8 @@ def patched():
 
     def _array_to_buffer(self, buffer, offset, value):
         if getattr(buffer, "_is_pbuf", False):
-            for k, v in enumerate(list(value)):
+            flat = list(value.flatten()) if isinstance(value, np.ndarray) else list(value)  # C order, as tobytes()
+            for k, v in enumerate(flat):
                 buffer.store_word(offset + 8 * k, v)
             return
         return o_ato(self, buffer, offset, value)
@@ -141,7 +147,10 @@ def patched():
 
     def _array_from_buffer(self, buffer, offset, count):
         if getattr(buffer, "_is_pbuf", False):
-            return [buffer.load_word(offset + 8 * k) for k in range(int(count))]
+            out = np.empty(int(count), dtype=object)
+            for k in range(int(count)):
+                out[k] = buffer.load_word(offset + 8 * k)
+            return out
         return o_afrom(self, buffer, offset, count)
 
     NS._to_buffer, NS._from_buffer, NS._array_to_buffer = _to_buffer, _from_buffer, _array_to_buffer
@@ -574,6 +583,118 @@ def h_string(cfg):
 
 
 # --------------------------------------------------------------------------
+# P5: arrays of dynamically sized items with ABSTRACT items of symbolic size (shape enumerated)
+class FakeItem:
+    """abstract dynamically sized item type: item k has symbolic size z_k"""
+
+    _size = None
+    _has_refs = False
+
+    def __init__(self, sizes):
+        self.__name__ = "PItem"
+        self.sizes = sizes
+
+    def _inspect_args(self, k):
+        return Info(size=self.sizes[k])
+
+    def _to_buffer(self, buffer, offset, value, info=None):
+        buffer.payloads.append(("child", T(offset), T(info.size if info is not None else self.sizes[value]), value))
+
+    def _from_buffer(self, buffer, offset=0):
+        return ("child", offset)
+
+
+def h_dynarr(cfg):
+    pid, shape, order, dynmask = cfg
+    name = f"P5 array of dynamic items[{shape};order={''.join(map(str, order))};dyn={dynmask}]"
+    e = Engine(name, timeout_ms=30000, max_decisions=4000)
+    nd = len(shape)
+    n = int(np.prod(shape))
+
+    def body(e):
+        sizes = [e.sym(f"z{k}", 8, BIG // 64) for k in range(n)]
+        base = e.sym("base", 0, BIG)
+        it = FakeItem(sizes)
+        decl = tuple(slice(None if dynmask[k] else shape[k], order[k]) for k in range(nd))
+        cls = xarray.Array.mk_arrayclass(it, decl if nd > 1 else decl[0])
+        # value: nested lists whose leaves are the item numbers (index order)
+        idxs = list(itertools.product(*[range(d) for d in shape]))
+        num = {idx: k for k, idx in enumerate(idxs)}
+
+        def nest(prefix, lvl):
+            if lvl == nd:
+                return num[tuple(prefix)]
+            return [nest(prefix + [i], lvl + 1) for i in range(shape[lvl])]
+
+        value = nest([], 0)
+        b = PBuf()
+        det = lambda m: {"shape": list(shape), "order": list(order), "sizes": [m.eval(z.e, model_completion=True).as_long() for z in sizes]}
+        facade = xarray.np
+        facade.object_tables = True
+        try:
+            h = cls(value, _buffer=b, _offset=base)
+        except Exception as ex:  # noqa
+            e.fail(f"constructing an array of dynamic items raised {type(ex).__name__}: {str(ex)[:60]}", det)
+            e.reach()
+            return
+        finally:
+            facade.object_tables = False
+        ndyn = sum(1 for k in range(nd) if dynmask[k])
+        data_offset = 8 * (1 + ndyn + (nd if ndyn and nd > 1 else 0))
+        # documented layout: table of n words in MEMORY order, then the items in memory order, each on a slot
+        strides = [None] * nd
+        acc = 8
+        for ax in reversed(order):
+            strides[ax] = acc
+            acc *= shape[ax]
+        mem_sorted = sorted(idxs, key=lambda idx: sum(i * s for i, s in zip(idx, strides)))
+        want_off = {}
+        off = z3.IntVal(data_offset + 8 * n)
+        for idx in mem_sorted:
+            want_off[idx] = off
+            off = off + slot(sizes[num[idx]].e)
+        total = off
+        size = T(h._size)
+        e.prove(size == total, "C05 size of an array of dynamic items = header + table + slot-rounded items", det)
+        words = {}
+        for a, v in b.words:
+            d = z3.simplify(a - base.e)
+            if z3.is_int_value(d):
+                words[d.as_long()] = v
+        kids = {p[3]: (p[1] - base.e, p[2]) for p in b.payloads if p[0] == "child"}
+        e.prove(z3.BoolVal(sorted(kids) == list(range(n))), "C03 every item is written exactly once", det)
+        for idx in idxs:
+            pos = data_offset + sum(i * s for i, s in zip(idx, strides))
+            ok = pos in words
+            e.prove(z3.BoolVal(ok), f"C05 the table word of item {idx} sits at data_offset + sum(i_k * stride_k) (memory order)", det)
+            if ok:
+                e.prove(words[pos] == want_off[idx], f"C05 the table word of item {idx} holds that item's offset; items follow the table in memory order, slot-rounded", det)
+            if num[idx] in kids:
+                o, ln = kids[num[idx]]
+                e.prove(o == want_off[idx], f"C05 item {idx} is written where its table word points", det)
+                e.prove(o % 8 == 0, f"C05 item {idx} starts on a slot boundary", det)
+                e.prove(z3.And(o >= data_offset + 8 * n, o + ln <= size), f"C03 item {idx} lies inside the array, after the table", det)
+        for (k1, (o1, l1)), (k2, (o2, l2)) in itertools.combinations(sorted(kids.items()), 2):
+            e.prove(z3.Or(o1 + l1 <= o2, o2 + l2 <= o1), f"C03 items {k1} and {k2} do not overlap", det)
+        if pid == "C06":
+            try:
+                v = cls._from_buffer(b, base)
+                for idx in idxs:
+                    oh, ov = h._get_offset(idx), v._get_offset(idx)
+                    e.prove(T(oh) == T(ov), f"C06 item {idx}: same address through the constructor handle and a rebuilt view", det)
+                    e.prove(T(ov) - base.e == want_off[idx], f"C06 item {idx}: the view finds it at the documented offset", det)
+            except Exception as ex:  # noqa
+                e.fail(f"C06 indexing an array of dynamic items through a rebuilt view raised {type(ex).__name__}: {str(ex)[:60]}", det)
+        e.reach()
+
+    with patched():
+        e.explore(body)
+    r = e.result()
+    r["cfg"] = [pid, list(shape), list(order), list(dynmask)]
+    return r
+
+
+# --------------------------------------------------------------------------
 # P4: reference codecs for all slot / target offsets and all stored words
 NULL = -(2**63)
 
@@ -696,6 +817,17 @@ def jobs(pid, tr):
         out.append(("string", (pid, "create")))
     if pid in ("C10", "C11", "C03"):
         out.append(("string", (pid, "rewrite")))
+    if pid in ("C03", "C05", "C06"):
+        cfgs = [((3,), (0,), (True,)), ((2,), (0,), (False,))]
+        for o in itertools.permutations(range(2)):
+            cfgs += [((2, 3), o, (True, True)), ((2, 2), o, (False, True))]
+        for o in itertools.permutations(range(3)):
+            if tr == "thorough" or o in ((1, 2, 0), (2, 0, 1), (0, 1, 2)):
+                cfgs.append(((2, 2, 2), o, (True, False, True)))
+            if tr == "thorough":
+                cfgs.append(((2, 3, 2), o, (True, True, True)))
+        for sh, o, dm in cfgs:
+            out.append(("dynarr", (pid, sh, o, dm)))
     if pid in ("C05", "C08"):
         for kind in ("ref", "uref"):
             for mode in ("decode", "bind0", "bind1"):
@@ -703,7 +835,7 @@ def jobs(pid, tr):
     return out
 
 
-HARNESS = {"array": h_array, "struct": h_struct, "string": h_string, "ref": h_ref}
+HARNESS = {"array": h_array, "struct": h_struct, "string": h_string, "ref": h_ref, "dynarr": h_dynarr}
 
 
 def dispatch(job):
@@ -889,6 +1021,40 @@ def replay(kind, cfg, detail):
                 bad.append(f"view size {vw._size} != handle size {o._size}")
         except Exception as ex:
             bad.append(f"layout decoder failed: {type(ex).__name__}: {ex}")
+    elif kind == "dynarr":
+        pid, shape, order, dynmask = cfg
+        shape, order = list(shape), list(order)
+        sizes = [max(9, min(int(x), 200)) for x in (detail or {}).get("sizes", [16] * int(np.prod(shape)))]
+        t = ("array", ("string",), tuple(None if dynmask[k] else shape[k] for k in range(len(shape))), tuple(order))
+        cls = tg.build(t)
+        idxs = list(itertools.product(*[range(d) for d in shape]))
+
+        def nest(prefix, lvl):
+            if lvl == len(shape):
+                return sizes[idxs.index(tuple(prefix))] - 8  # a string created from a capacity has size capacity + 8
+            return [nest(prefix + [i], lvl + 1) for i in range(shape[lvl])]
+
+        o = cls(nest([], 0))
+        try:
+            dec = Decoder(bytes(o._buffer.to_bytearray(0, o._buffer.capacity)))
+            got = dec.decode(t, o._offset)
+            flat = np.array(got, dtype=object).flatten().tolist()
+            if any(x != "" for x in flat):
+                bad.append(f"layout decoder reads {got}")
+            for path, off, parent in dec.parts:
+                if (off - parent) % 8:
+                    bad.append(f"item {path} at offset {off - parent}: not on a slot boundary")
+            if o._size % 8:
+                bad.append(f"array size {o._size} is not a multiple of 8")
+        except Exception as ex:
+            bad.append(f"layout decoder failed: {type(ex).__name__}: {ex}")
+        try:
+            vw = cls._from_buffer(o._buffer, o._offset)
+            for idx in idxs:
+                if int(o._get_offset(idx)) != int(vw._get_offset(idx)):
+                    bad.append(f"item {idx}: handle at {o._get_offset(idx)}, rebuilt view at {vw._get_offset(idx)}")
+        except Exception as ex:
+            bad.append(f"indexing through a rebuilt view raised {type(ex).__name__}: {str(ex)[:80]}")
     elif kind == "ref":
         pid, rk, mode = cfg
         # a target at the very offset of the reference slot exists for zero-sized objects: an empty struct
